@@ -7,6 +7,7 @@ probes what the connection may do.  Oracle: history invariants against the
 harness's ground truth of which credentials are valid for which user.
 """
 
+import asyncio
 import os
 import time
 from typing import Any, Dict, List, Optional, Tuple
@@ -224,6 +225,16 @@ def make_server(log: List[Any], gate: Gate, optstr: str,
             log.append(('vp-end', username, ok))
             return ok
 
+        async def change_password(self, username, old_password,
+                                  new_password):
+            # (documented: may be a coroutine) the old password is the
+            # credential; nothing is stored, every case starts afresh
+            log.append(('cp-start', username))
+            await asyncio.sleep(0)
+            ok = PASSWORDS.get(username) == old_password
+            log.append(('cp-end', username, ok))
+            return ok
+
         def kbdint_auth_supported(self):
             return True
 
@@ -347,9 +358,19 @@ def run_history(case) -> CaseResult:
                                          else 'alice'],
                       'uname': user, 'empty': '', 'suffix': right + ' ',
                       'upper': right.upper()}[which]
-                conn.auth_password(user, pw)
+                if op.get('change'):
+                    # the change form, unsolicited: the old password is
+                    # what the application checks
+                    conn.auth_password_change(user, pw, 'new-' + pw)
+                    labels.add('password-change:' +
+                               ('right' if which == 'right' and
+                                user in PASSWORDS else 'refused'))
+                    entry['cred'] = 'pwc'
+                else:
+                    conn.auth_password(user, pw)
+                    entry['cred'] = 'pw'
+
                 entry['valid'] = which == 'right' and user in PASSWORDS
-                entry['cred'] = 'pw'
             elif kind == 'pk':
                 kname = op['key']
                 key = refkey(kname)
@@ -521,6 +542,10 @@ def run_history(case) -> CaseResult:
         authed = bool(successes())
         auth_msgs = [e for e in history if e['k'] not in ('probe',)]
 
+        if any(e[0] == 'cp-end' and e[2] for e in log):
+            # (the application callback really ran and said yes)
+            labels.add('password-change:validated')
+
         if authed and alive():
             labels.add('authenticated')
             probe_restrictions(case, log, conn, link, history, optstr, labels)
@@ -620,6 +645,13 @@ def check_invariants(log, conn: RefConn, history, link) -> None:
                 (user, [(e['k'], e['u'], e.get('cred'), e['valid'])
                         for e in history]),
                 'granted-without-credential')
+
+        if all(e['cred'] == 'pwc' for e in valid) and \
+                ('cp-end', user, True) not in log:
+            raise Violation('granted-without-validator', 'password change '
+                            'success for %r without change_password() '
+                            'returning True for that user' % user,
+                            'granted-without-validator-change')
 
         if all(e['cred'] == 'pw' for e in valid) and \
                 ('vp-end', user, True) not in log:
@@ -783,6 +815,7 @@ def strategy(tier: str):
     pw = st.fixed_dictionaries({'k': st.just('pw'), 'u': user,
                                 'w': pick(['right', 'right', 'wrong', 'other', 'uname',
                                           'empty', 'suffix', 'upper']),
+                                'change': pick([False, False, False, True]),
                                 'pipeline': st.booleans()})
     pk = st.fixed_dictionaries({
         'k': st.just('pk'), 'u': user,
@@ -1253,7 +1286,10 @@ FAMILIES = [
                              'forced-command-vs-subsystem',
                              'pre-auth-probe',
                              'probe-before-service-request',
-                             'request-after-success', 'pk:ok', 'pk:wrong-sid',
+                             'request-after-success',
+                             'password-change:right',
+                             'password-change:refused',
+                             'password-change:validated', 'pk:ok', 'pk:wrong-sid',
                              'pk:wrong-user', 'pk:wrong-service',
                              'pk:wrong-blob', 'pk:bad-sig',
                              'pk:other-signer', 'pk:alg-mismatch',
